@@ -90,6 +90,8 @@ function corpus(depth) {
         // with and without a file-level script module named m
         push(`${nest.name}|${fname}|${nm}`, nest.wrap([probe(e)]))
         if (nm === 'm' || fname === 'identifier') push(`wxs+${nest.name}|${fname}|${nm}`, [WXS_M, ...nest.wrap([probe(e)])])
+        // (a script module is visible in the whole file, also before its <wxs> tag)
+        if (nm === 'm') push(`wxs-at-end+${nest.name}|${fname}|${nm}`, [...nest.wrap([probe(e)]), WXS_M])
       }
     }
     // mixed text and template data positions
@@ -109,6 +111,8 @@ function corpus(depth) {
       push(`after:${iname}|sibling|${nm}`, [...ifn([probe(id(nm))]), probe(id(nm))])
       push(`after:${iname}|following-text|${nm}`, [...ifn([text('in')]), text(E(id(nm)))])
       push(`inside:${iname}|template-definition-body|${nm}`, [WXS_M, tdef('t', [probe(id(nm))]), ...ifn([tis('t', M.obj([{ key: 'zz', value: M.lit('1') }]))])])
+      push(`inside:${iname}|template-definition-body-module-after-the-definition|${nm}`, [tdef('t', [probe(id(nm))]), WXS_M, ...ifn([tis('t', M.obj([{ key: 'zz', value: M.lit('1') }]))])])
+      push(`inside:${iname}|template-definition-body-module-at-the-end|${nm}`, [tdef('t', [probe(id(nm))]), ...ifn([tis('t', M.obj([{ key: 'zz', value: M.lit('1') }]))]), WXS_M])
       push(`inside:${iname}|template-definition-written-inside|${nm}`, [...ifn([tdef('t', [probe(id(nm))]), tis('t')])])
       push(`two:${iname}|second-sibling-scope|${nm}`, [...ifn([probe(id(nm))]), ...ifn([probe(M.arr([{ hole: true }, id(nm)]))])])
     }
